@@ -112,6 +112,20 @@ fn prompt_text(p: &PrintStmt, up: bool) -> String {
     }
 }
 
+/// a third spelling for the prompt, which reads its commands without regard to letter case: every word capitalised
+fn capitalised(s: &str) -> String {
+    s.split(' ')
+        .map(|t| {
+            let mut c = t.chars();
+            match c.next() {
+                Some(f) if f.is_ascii_lowercase() => format!("{}{}", f.to_ascii_uppercase(), c.as_str()),
+                _ => t.to_string(),
+            }
+        })
+        .collect::<Vec<_>>()
+        .join(" ")
+}
+
 pub fn case_s() -> BoxedStrategy<PCase> {
     let regs = proptest::collection::vec(pt::u16s(), 8);
     let segv = || prop_oneof![3 => proptest::sample::select(vec![0u16, 1, 0x10, 0x0FFF, 0xF000, 0xFFF0, 0xFFFF]), 1 => any::<u16>()];
@@ -180,7 +194,7 @@ pub fn case_s() -> BoxedStrategy<PCase> {
                 // the same commands typed at the prompt of an int 3
                 code.push(Item::Ins(Insn::new("int", vec![Opd::Imm(3, ImmKind::UB)])));
                 for (k, p) in prints.iter().enumerate() {
-                    script.push(PromptCmd::Print(p.clone(), prompt_text(p, k % 2 == 1)));
+                    script.push(PromptCmd::Print(p.clone(), if k % 3 == 2 { capitalised(&prompt_text(p, false)) } else { prompt_text(p, k % 2 == 1) }));
                     script.push(PromptCmd::Print(p.clone(), prompt_text(p, false)));
                 }
                 script.push(PromptCmd::Next("n".into()));
